@@ -210,6 +210,8 @@ def replay_file(path):
                 run.env('cb' + params[0])
             elif name == 'EnvComplete':
                 run.complete(params[0], params[1][0], params[1][1])
+            elif name in ('EnvRpc', 'EnvBcast'):
+                run.deliver('rpc' if name == 'EnvRpc' else 'bcast', params[0], params[1])
             elif name == 'EnvSave':
                 run.snapshot()
             elif name == 'EnvRestore':
